@@ -37,6 +37,8 @@ const (
 	bMapCallback
 	bRangeSlice
 	bRecvAssign
+	bRecvInLiteral
+	bPanicRecover
 	bSleepLoop
 	nBodies
 )
@@ -44,7 +46,7 @@ const (
 var bodyName = [...]string{"loop-tick", "count-loop", "recursion", "closure-loop", "method-loop", "funcval-loop",
 	"nested-call", "make-closure-loop", "send-block", "recv-block", "recv-cond", "recv2", "range-chan",
 	"select-recv-send", "select-default-loop", "select-empty", "ping-pong", "defer-literal", "defer-host",
-	"send-buffered-full", "select-many", "sort-callback", "strings-map-callback", "range-slice-loop", "recv-assign", "sleep-loop"}
+	"send-buffered-full", "select-many", "sort-callback", "strings-map-callback", "range-slice-loop", "recv-assign", "recv-in-literal", "panic-recover-loop", "sleep-loop"}
 
 // C09Prog is a generated program.
 type C09Prog struct {
@@ -178,16 +180,40 @@ func (g *c09Gen) actor(depth int) int {
 	case bRecvAssign:
 		// the received value is assigned to an existing variable, a slice element
 		// or a struct field (not declared by the statement)
-		switch g.tape.Choose(4) {
+		switch g.tape.Choose(3) {
 		case 0:
 			p("\tc := make(chan int)\n\tv := 1\n\tv = <-c\n\thost.Tick(%d + v*0)\n", 900+id)
 		case 1:
 			p("\tc := make(chan int)\n\ta := []int{1, 2}\n\ta[1] = <-c\n\thost.Tick(%d + a[1]*0)\n", 900+id)
 		case 2:
 			p("\tc := make(chan string)\n\tvar s struct{ f string }\n\ts.f = <-c\n\thost.Tick(%d + len(s.f)*0)\n", 900+id)
-		case 3:
-			p("\tc := make(chan int)\n\tv := 1\n\tf := func() { v = <-c }\n\tf()\n\thost.Tick(%d + v*0)\n", 900+id)
 		}
+	case bRecvInLiteral:
+		// a blocking channel operation inside a function literal (whose code is
+		// generated when the literal is compiled, not when the program is executed)
+		switch g.tape.Choose(3) {
+		case 0:
+			p("\tc := make(chan int)\n\tv := 1\n\tf := func() { v = <-c }\n\tf()\n\thost.Tick(%d + v*0)\n", 900+id)
+		case 1:
+			p("\tc := make(chan int)\n\tf := func() int { return <-c + 1 }\n\thost.Tick(%d + f()*0)\n", 900+id)
+		case 2:
+			p("\tc := make(chan int)\n\tfunc() { c <- 1 }()\n\thost.Tick(%d)\n", 900+id)
+		}
+	case bPanicRecover:
+		// every iteration raises a panic (explicit or a run-time fault) which a
+		// deferred function of the callee, or of its caller, recovers: a cancellation
+		// may arrive while the panic is in flight
+		kind := g.tape.Choose(3)
+		raise := "panic(\"p\")"
+		if kind == 1 {
+			raise = "var m map[int]int\n\tm[i] = 1"
+		}
+		if kind == 2 {
+			fmt.Fprintf(&g.decl, "func pri%d(i int) {\n\thost.Tick(%d)\n\tpanic(i)\n}\n\nfunc pr%d(i int) (r int) {\n\tdefer func() {\n\t\tif e := recover(); e != nil {\n\t\t\tr = -1\n\t\t}\n\t}()\n\tpri%d(i)\n\treturn i\n}\n\n", id, id, id, id)
+		} else {
+			fmt.Fprintf(&g.decl, "func pr%d(i int) (r int) {\n\tdefer func() {\n\t\tif e := recover(); e != nil {\n\t\t\tr = -1\n\t\t}\n\t}()\n\thost.Tick(%d)\n\t%s\n\treturn i\n}\n\n", id, id, raise)
+		}
+		p("\tfor i := 0; ; i++ {\n\t\tpr%d(i)\n\t}\n", id)
 	case bSleepLoop:
 		g.sleeps = true
 		p("\tfor {\n\t\ttime.Sleep(%d * time.Millisecond)\n\t\thost.Tick(%d)\n\t}\n", 1+g.tape.Choose(4), id)
